@@ -10,11 +10,24 @@ import (
 	"github.com/jsightapi/jsight-api-go-library/notation"
 )
 
+// unescapeParameter removes the quotes of a quoted parameter and the backslash
+// of the two escape sequences which are possible inside the quotes: \" and \\.
 func unescapeParameter(b bytes.Bytes) bytes.Bytes {
-	c := b.Unquote()
-	if len(c) != 0 && len(c) != len(b) {
-		c = stdBytes.ReplaceAll(c, []byte(`\"`), []byte(`"`))
-		c = stdBytes.ReplaceAll(c, []byte(`\\`), []byte(`\`))
+	if !b.InQuotes() {
+		return b
+	}
+
+	b = b[1 : len(b)-1]
+	if stdBytes.IndexByte(b, '\\') == -1 {
+		return b
+	}
+
+	c := make(bytes.Bytes, 0, len(b))
+	for i := 0; i < len(b); i++ {
+		if b[i] == '\\' && i+1 < len(b) && (b[i+1] == '"' || b[i+1] == '\\') {
+			i++
+		}
+		c = append(c, b[i])
 	}
 	return c
 }
